@@ -55,6 +55,8 @@ func baseUniverse(r *rand.Rand) *universe {
 	for i := 0; i < 5; i++ {
 		u.fns = append(u.fns, uFn{fmt.Sprintf("f%d", i%3), fmt.Sprintf("s%d", i%2), fmt.Sprintf("file%d", i%2), int64(i%2) * 3})
 	}
+	// functions whose system name equals the display name, or is absent
+	u.fns = append(u.fns, uFn{"f1", "f1", "file1", 3}, uFn{"f2", "", "file0", 0})
 	for i := 0; i < 7; i++ {
 		l := uLoc{m: r.Intn(len(u.maps)+1) - 1, rel: uint64(r.Intn(3)) * 0x10, folded: r.Intn(8) == 0}
 		for j, n := 0, r.Intn(4); j < n; j++ {
@@ -142,7 +144,14 @@ func (u *universe) twin(r *rand.Rand, s uSample, attr string) (uSample, bool) {
 		case "fn.name":
 			f.name += "x"
 		case "fn.sys":
-			f.sys += "x"
+			switch {
+			case f.sys == f.name && r.Intn(2) == 0:
+				f.sys = "" // absent versus equal to the display name
+			case f.sys == "" && r.Intn(2) == 0:
+				f.sys = f.name
+			default:
+				f.sys += "x"
+			}
 		case "fn.file":
 			f.file += "x"
 		case "fn.start":
@@ -295,7 +304,7 @@ func (u *universe) twin(r *rand.Rand, s uSample, attr string) (uSample, bool) {
 			if un == nil {
 				un = make([]string, len(v))
 			}
-			un[0] += "q"
+			un[r.Intn(len(un))] += "q" // at any position of a multi-valued label
 			t.unit[k] = un
 			break
 		}
@@ -376,7 +385,7 @@ func (u *universe) randSample(r *rand.Rand, ntypes int) uSample {
 		s.num = map[string][]int64{}
 		s.unit = map[string][]string{}
 		k := []string{"n", "k"}[r.Intn(2)]
-		for i, n := 0, 1+r.Intn(2); i < n; i++ {
+		for i, n := 0, 1+r.Intn(3); i < n; i++ {
 			s.num[k] = append(s.num[k], int64(r.Intn(3)))
 		}
 		if r.Intn(2) == 0 {
